@@ -559,6 +559,11 @@ func substringIndFunc(arg1, arg2 query, after bool) func(query, iterator) interf
 			word = node.Value()
 		}
 		if word == "" {
+			// Every string starts with the empty string: nothing comes
+			// before it and the whole string comes after it.
+			if after {
+				return str
+			}
 			return ""
 		}
 
